@@ -190,6 +190,28 @@ def execute(scenario, seed, overrides=None):
                     return
                 eff = None
                 stats["heard_in_suppressed_duplicate"] = stats.get("heard_in_suppressed_duplicate", 0) + 1
+                # (heard again "with the known answers it was remembered with": the copy may be the last packet of a longer
+                # query, the entry keeps its list and gets the new time)
+                if S.reg.s and not msg.authorities:
+                    for q in msg.questions:
+                        if q.qu:
+                            continue
+                        prev = [e for e in S.heard_log + S.heard_amb if e[1] == q.key()]
+                        if prev:
+                            last_e = max(prev, key=lambda e: e[0])
+                            S.heard_log.append((t * 1000.0, q.key(), set(last_e[2])))
+                            for e in S.heard_amb:
+                                if e[1] == q.key() and e[0] == last_e[0]:
+                                    S.heard_amb.append((t * 1000.0, q.key(), set(e[2])))
+                                    break
+                            stats["heard_as_responder"] += 1
+                        else:
+                            req, opt = S.reg.answers(q)
+                            if req or opt:
+                                kn = {r.ident() for r in msg.answers}
+                                S.heard_log.append((t * 1000.0, q.key(), {i for i in kn if i[0] == q.key()[0] and
+                                                                          (q.type in (i[1], wire.T_ANY))}))
+                    return
             if msg is None:
                 return
             if eff is not None:
